@@ -363,9 +363,23 @@ func (m *model) variants(r *Rule, v string) []string {
 	return out
 }
 
+// canonicalInt: a decimal integer written with digits only (optional '-', leading zeros allowed: a digit string
+// has one decimal value). Signs, blanks, base prefixes, separators have no pinned numeric reading.
 func canonicalInt(s string) (int, bool) {
+	d := s
+	if len(d) > 0 && d[0] == '-' {
+		d = d[1:]
+	}
+	if d == "" {
+		return 0, false
+	}
+	for i := 0; i < len(d); i++ {
+		if d[i] < '0' || d[i] > '9' {
+			return 0, false
+		}
+	}
 	n, err := strconv.Atoi(s)
-	if err != nil || strconv.Itoa(n) != s {
+	if err != nil {
 		return 0, false
 	}
 	return n, true
